@@ -377,10 +377,24 @@ PumpServer(w, cs, dt) ==
                          IN [w |-> x.w, evs |-> Append(prev.evs, x.ev)]
     IN F[Len(r.w.net)]
 
-DoPump(w, cs, dt) ==
+\* the server application sends one payload to each listed id (pay = sequence of [id, tag]); each reaches the listed client it
+\* is addressed to
+RECURSIVE PumpPayloads(_, _, _)
+PumpPayloads(w, cs, pay) ==
+    IF pay = <<>> THEN [w |-> w, evs |-> <<>>]
+    ELSE LET r == DoSPayload(w, Head(pay).id, Head(pay).tag, 8)
+             k == Len(r.w.net)
+             targets == IF r.ev.ok THEN {i \in 1..Len(cs) : r.w.cl[cs[i]].addr = r.w.net[k].to} ELSE {}
+             r2 == IF targets = {} THEN [w |-> r.w, evs |-> <<r.ev>>]
+                   ELSE LET x == DoCDeliver(r.w, cs[CHOOSE i \in targets : \A j \in targets : i <= j], k) IN [w |-> x.w, evs |-> <<r.ev, x.ev>>]
+             rest == PumpPayloads(r2.w, cs, Tail(pay))
+         IN [w |-> rest.w, evs |-> r2.evs \o rest.evs]
+
+DoPump(w, cs, dt, pay) ==
     LET r1 == PumpClients(w, cs, dt)
-        r2 == PumpServer(r1.w, cs, dt)
-    IN [w |-> r2.w, evs |-> r1.evs \o r2.evs \o <<[ev |-> "round_end", cs |-> cs, panic |-> FALSE]>>]
+        rp == PumpPayloads(r1.w, cs, pay)
+        r2 == PumpServer(rp.w, cs, dt)
+    IN [w |-> r2.w, evs |-> r1.evs \o rp.evs \o r2.evs \o <<[ev |-> "round_end", cs |-> cs, panic |-> FALSE]>>]
 
 DoSetMax(w, n) ==
     LET w1 == [w EXCEPT !.maxc = n, !.slots = IF n > Len(@) THEN @ \o [i \in 1..(n - Len(@)) |-> NoConn] ELSE @]
